@@ -183,10 +183,45 @@ def struct_pack(fmt: str):
             if not c.branch(z3.And(tv >= 0, tv < (1 << (8 * sz))), f"pack({ch}).in_range"):
                 raise struct.error(f"'{ch}' format requires 0 <= number <= {(1 << (8 * sz)) - 1}")
             s = Src(c.fresh_name(f"packed_{ch}"), z3.IntVal(sz))
-            # element j (big endian) = (v div 256^(sz-1-j)) mod 256
+            # linear encoding: v == sum(byte_j * 256^(sz-1-j)) with every byte in 0..255 (the base-256
+            # representation of an in-range value is unique, so this is exactly big-endian packing)
+            tot = z3.IntVal(0)
             for j in range(sz):
-                c.add(z3.Select(s.arr, j) == (tv / (256 ** (sz - 1 - j))) % 256)
+                bj = z3.FreshInt(f"{s.name}.b{j}")
+                c.add(z3.And(bj >= 0, bj <= 255))
+                c.add(z3.Select(s.arr, j) == bj)
+                tot = tot + bj * (256 ** (sz - 1 - j))
+            c.add(tot == tv)
             segs.append(Seg(s, z3.IntVal(0), sz))
         return SBytes(segs, bytes)
 
     return pack
+
+
+class SLock:
+    """model of asyncio.Lock used with ``async with`` (ASSUMED: mutual exclusion, FIFO wake-up).
+    Acquisition is a suspension point (the lock may be contended); the ghost flag ``held`` and the
+    event log let contracts state 'X happens only while the lock is held'."""
+
+    def __init__(self, unit, name="lock"):
+        self.unit = unit
+        self.name = name
+        self.held = False
+
+    async def __aenter__(self):
+        from .runtime import _Susp
+
+        used("asyncio.Lock: mutual exclusion; acquire may suspend and may be cancelled before the lock is taken")
+        self.unit.event(f"{self.name}.acquire.begin")
+        await _Susp(f"{self.name}.acquire", SAwait(name=f"{self.name}.acquire"), "lock")
+        self.held = True
+        self.unit.event(f"{self.name}.acquired")
+        return None
+
+    async def __aexit__(self, et, ev, tb):
+        self.held = False
+        self.unit.event(f"{self.name}.released")
+        return False
+
+    def locked(self):
+        return self.held
